@@ -6,8 +6,8 @@ constant on a continued run.
 
 Techniques (DESIGN 2b): R-C10-1, -1b, -2, -4 are T1 structural (write sets over the self-call closure of the loop, reaching
 definitions, CFG must-pass / dominance, sibling agreement), with these text-level parts: "reads the model" is a substring test for
-self._wn / wn on the unparsed value; R-C10-2 inspects a HARD-CODED list of 18 model / control classes (not derived from the loop's
-write set) and compares __getnewargs__ with __new__ by name prefix; R-C10-4 recognises the status test by its unparsed text and
+self._wn / wn on the unparsed value; R-C10-2 inspects EVERY class of the model modules (base, elements, model, controls, options, ordered_set: the pickled
+object graph) for pickling / copying hooks and __slots__, and compares __getnewargs__ with __new__ by name prefix; R-C10-4 recognises the status test by its unparsed text and
 compares only the SETS of the other atoms of the two guards.  R-C10-3 is T3: the defining slices of the first-step flag, the clock
 arithmetic and the exit tests are evaluated by sa/peval on a dozen concrete probes (bounded to them), plus two CFG dominance facts.
 R-C10-5 is T3: the prologue slice defining the rule clock is evaluated on 9 (prev_sim_time, rule_timestep) pairs and 8 fresh-run states.
@@ -33,8 +33,8 @@ EXPLANATION = (
     "first-step guards resolved by evaluating the test on 3 states): for each self.X assigned inside run_sim's while loop or a method called from "
     "it, the definition reaching the loop on a continued run (sim_time != 0) must mention the model (substring test self._wn / wn), not be a "
     "constant / empty container. R-C10-1b (T1: CFG must-pass / dominators, def-use): each loop-carried local of run_sim is model-derived, holds "
-    "its initial constant at every time advance, or is re-assigned before use. R-C10-2 (T1, AST presence/absence): 18 LISTED model and control "
-    "classes (a fixed list, not derived from what the loop writes) define no __slots__/__getstate__/__reduce__/__copy__ hooks; "
+    "its initial constant at every time advance, or is re-assigned before use. R-C10-2 (T1, AST presence/absence): every class of the model modules "
+    "(the pickled object graph; derived from the source) defines no __slots__/__getstate__/__reduce__/__copy__ hooks; "
     "ValueCondition.__getnewargs__ names match __new__'s parameters by prefix; prologue stores and the two prologue calls touching model state sit "
     "under the first-step guard. R-C10-3 (T3, finite evaluation of the defining slices by sa/peval on 7 clocks and 12 (clock, step, duration) "
     "triples -- bounded to these probes; plus T1 dominance): the first-step flag is true exactly when sim_time == 0, each clock exit is taken iff "
@@ -55,7 +55,6 @@ ASSUMPTIONS = [
     "R-C10-3 evaluates the clock arithmetic written in run_sim itself (assignments, with their if-structure); clock changes made inside callees of the loop "
     "(_compute_next_timestep_and_run_presolve_controls_and_rules backtracking to a control time) happen before the advance and are not part of it",
     "the flag, clock and exit semantics are checked on finitely many probe values (clocks 0, 0.0, 1, 3600, -1, 86400; whole and partial steps; durations on and off the grid)",
-    "R-C10-2's class list is written in the module; a class added to the model that carries run-time state is not noticed",
     "R-C10-3 checks that update_network_previous_values dominates every advance; that nothing else stores results or changes state between the advance and the exit test is not decided",
     "R-C10-4 compares the sets of atoms (unparsed text) of the two guards, not their truth tables",
     "R-C10-5 decides the value the prologue stores into the rule clock on the probed (prev_sim_time, rule_timestep) pairs (integers; sim_time = prev_sim_time + 3600 on "
@@ -714,22 +713,32 @@ def run(repo, chk):
                expected=sorted(au), found=sorted(ai))
 
     # ------------------------------------------------------------ R-C10-2 model-side state is plain picklable attributes
-    rt_classes = [(BASE, "Node"), (BASE, "Link"), (ELEM, "Junction"), (ELEM, "Tank"), (ELEM, "Reservoir"), (ELEM, "Pipe"), (ELEM, "Pump"),
-                  (ELEM, "HeadPump"), (ELEM, "PowerPump"), (ELEM, "Valve"), (MODEL, "WaterNetworkModel"), (CTRL, "TankLevelCondition"),
-                  (CTRL, "ValueCondition"), (CTRL, "SimTimeCondition"), (CTRL, "TimeOfDayCondition"), (CTRL, "Control"), (CTRL, "Rule"),
-                  (CTRL, "ControlAction")]
-    hooks = ("__getstate__", "__setstate__", "__reduce__", "__reduce_ex__", "__slots__", "__deepcopy__", "__copy__")
-    for rel, cn in rt_classes:
-        if not repo.has_cls(rel, cn):
-            raise AnchorError("class %s vanished from %s" % (cn, rel))
-        c = repo.cls(rel, cn)
+    # every class whose instances are part of the pickled model graph: all classes of the model modules (elements, registries, controls, conditions, actions,
+    # options, the ordered set they use) -- derived from the source, so a class added later is covered
+    MODEL_MODULES = (BASE, ELEM, MODEL, CTRL, OPTS, "wntr/utils/ordered_set.py")
+    rt_classes = []
+    for rel in MODEL_MODULES:
+        if not repo.exists(rel):
+            raise AnchorError("module vanished: %s" % rel)
+        for c in ast.walk(repo.tree(rel)):
+            if isinstance(c, ast.ClassDef):
+                rt_classes.append((rel, c))
+    for need in ("Node", "Link", "Junction", "Tank", "Pipe", "HeadPump", "Valve", "WaterNetworkModel", "TankLevelCondition", "ValueCondition", "SimTimeCondition", "Control", "Rule", "ControlAction"):
+        if need not in {c.name for _r, c in rt_classes}:
+            raise AnchorError("class %s vanished from the model modules" % need)
+    hooks = ("__getstate__", "__setstate__", "__reduce__", "__reduce_ex__", "__deepcopy__", "__copy__")
+    n_hook = 0
+    for rel, c in rt_classes:
         found = []
         for n in c.body:
             if isinstance(n, ast.FunctionDef) and n.name in hooks:
                 found.append(n.name)
-            if isinstance(n, ast.Assign) and any(isinstance(t, ast.Name) and t.id in hooks for t in n.targets):
-                found.append("__slots__")
-        chk.expect(not found, "R-C10-2", "%s keeps its run-time state in plain instance attributes (no %s)" % (cn, "/".join(hooks[:5])), loc(rel, c),
+        # __slots__ is compatible with pickling only when every attribute the class's methods store is a slot: else the store raises / is lost
+        slots = [n for n in c.body if isinstance(n, ast.Assign) and any(isinstance(t, ast.Name) and t.id == "__slots__" for t in n.targets)]
+        if slots:
+            found.append("__slots__")
+        n_hook += 1
+        chk.expect(not found, "R-C10-2", "%s keeps its state in plain instance attributes (no pickling / copying hook, no __slots__)" % c.name, loc(rel, c),
                    "a pickling hook can drop or rename run-time fields between pause and restart", found=found)
     vc = repo.cls(CTRL, "ValueCondition")
     vm = {n.name: n for n in vc.body if isinstance(n, ast.FunctionDef)}
@@ -756,7 +765,7 @@ def run(repo, chk):
         if nm.endswith("update_network_previous_values") or nm.endswith("reset_initial_values"):
             n_p += 1
             chk.expect(guard_of(c, rs) == "first" or guard_of(parent(c), rs) == "first", "R-C10-2", "prologue call %s happens only on a first step" % nm.split(".")[-1], loc(rs, c))
-    chk.floor("R-C10-2", len(rt_classes) + 2)
+    chk.floor("R-C10-2", 60)
 
     # ------------------------------------------------------------ R-C10-3 continuation point
     # the flag's definition is evaluated, not matched: the slice of the prologue that defines it is run for several model clocks (and for every
